@@ -66,7 +66,7 @@ Print Assumptions C26_languages_for_file_exact.
 Theorem C26_language_for_file_exactly_one : forall fnm epl epg s f,
   (forall d, snd (sstep fnm epl epg s (LangForFile f)) = RLang d <-> langs_for_file fnm f (slangs s) = [d]) /\
   (length (langs_for_file fnm f (slangs s)) <> 1 -> snd (sstep fnm epl epg s (LangForFile f)) = RErr).
-Proof. intros. split; [intro d; apply lang_for_file_unique | apply lang_for_file_fails_otherwise]. Qed.
+Proof. exact lang_for_file_exactly_one. Qed.
 Print Assumptions C26_language_for_file_exactly_one.
 
 Theorem C26_cached_without_arguments : forall fnm epl epg s n m,
